@@ -468,6 +468,9 @@ func (app *App) RebuildTree() *App {
 	app.mutex.Lock()
 	defer app.mutex.Unlock()
 
+	// sub-apps mounted since the last start (a running server asks for its handler once) are spliced in first
+	app.mountStartupProcess()
+
 	return app.buildTree()
 }
 
